@@ -60,13 +60,16 @@ class Run:
         if not os.path.exists(p): return []
         return json.load(open(p))['findings']
     def classify(s, cand):
-        """returns the matching open known-finding entry or None. An entry matches when the property is the same and the
-        entry's key equals the candidate's role key (never by the concrete input)."""
-        for f in s._findings():
-            if f.get('status') != 'open': continue
-            if f['property'] != s.pid: continue
-            if f['key'] == cand['key']: return f
-        return None
+        """returns the matching open known-finding entries or None. A candidate carries one role key (cand['key']) or several
+        (cand['keys']: every one of them must be an open recorded finding, e.g. a sentence needing two recorded grammar deviations).
+        Matching is by role key, never by the concrete input."""
+        keys = cand.get('keys') or [cand['key']]
+        found = []
+        for k in keys:
+            hit = [f for f in s._findings() if f.get('status') == 'open' and f['property'] == s.pid and f['key'] == k]
+            if not hit: return None
+            found.append(hit[0])
+        return found
     # ---- confirmation + reporting
     def confirm_all(s, confirm_fn):
         """confirm_fn(cand, native_dev, native_release) -> (reproduced: bool, observed: dict)."""
@@ -89,11 +92,12 @@ class Run:
                 continue
             kf = s.classify(c)
             if kf is not None:
-                if not any(x['key'] == c['key'] for x in s.known): s.known.append({'key': c['key'], 'what': kf['what'], 'witness': c.get('witness')})
+                for f in kf:
+                    if not any(x['key'] == f['key'] for x in s.known): s.known.append({'key': f['key'], 'what': f['what'], 'witness': c.get('witness')})
             else:
                 s.violations.append(c)
     def finish(s):
-        os.makedirs(os.path.join(build.VERIF, 'evidence', 'replays'), exist_ok=True)
+        os.makedirs(os.path.join(build.EVIDENCE_DIR, 'replays'), exist_ok=True)
         for m in s.mismatches[:10]:
             print(f'INCONCLUSIVE: encoding-mismatch {json.dumps(m, default=str)[:400]}')
         if s.mismatches: s.note_inconclusive(f'{len(s.mismatches)} engine/native mismatches (encoding suspect; not reported as violations)')
@@ -106,7 +110,7 @@ class Run:
         for i, c in enumerate(s.violations):
             if reported[c['key']] >= 3: continue
             reported[c['key']] += 1
-            p = os.path.join(build.VERIF, 'evidence', 'replays', f'{s.pid}-{len(vio_paths)}.json')
+            p = os.path.join(build.EVIDENCE_DIR, 'replays', f'{s.pid}-{len(vio_paths)}.json')
             json.dump({'property': s.pid, 'key': c['key'], 'what': c.get('what'), 'witness': c.get('witness'), 'request': c.get('request'),
                        'expected': c.get('expected'), 'observed': c.get('observed'),
                        'rerun': f'./check {s.pid} --replay {p}'}, open(p, 'w'), indent=1, default=str)
@@ -135,7 +139,7 @@ class Run:
         if cov['states'] < 1 or cov['transitions'] < 1:
             cov['states'] = max(cov['states'], 1); cov['transitions'] = max(cov['transitions'], 1)
             cov['inconclusive'] = True; cov['inconclusive_notes'].append('no path / query completed: nothing decided')
-        json.dump(ev, open(os.path.join(build.VERIF, 'evidence', f'{s.pid}.json'), 'w'), indent=1, default=str)
+        json.dump(ev, open(os.path.join(build.EVIDENCE_DIR, f'{s.pid}.json'), 'w'), indent=1, default=str)
         for n in s._native.values(): n.close()
         print(f'{s.pid} [{s.tier}] paths={s.paths} queries={s.queries} solver_s={s.solver_s:.1f} replayed={s.replayed} '
               f'known={len(s.known)} violations={len(vio_paths)} inconclusive={len(s.inconclusive)} wall={wall:.1f}s')
